@@ -84,6 +84,15 @@ def check_diagnostics(ctx):
         e2 = float(eff_sample_size(a * ch + b))
         if not math.isclose(e2, ess, rel_tol=1e-7):
             ctx.fail_input(dict(case, a=a, b=b), 'ESS changes under the affine map x -> %r x + %r: %r vs %r' % (a, b, e2, ess), ess, e2)
+        # a location that is large relative to the spread (an algebraically equal but cancelling rewrite would show here)
+        big = rng.choice([1e4, 1e6])
+        e_big = float(eff_sample_size(ch + big))
+        if not math.isclose(e_big, ess, rel_tol=1e-5):
+            ctx.fail_input(dict(case, shift=big), 'ESS changes under the shift x -> x + %g: %r vs %r' % (big, e_big, ess), ess, e_big)
+        if rhat is not None and math.isfinite(rhat):
+            r_big = float(gelman_rubin_statistic(ch + big))
+            if not math.isclose(r_big, rhat, rel_tol=1e-5):
+                ctx.fail_input(dict(case, shift=big), 'split R-hat changes under the shift x -> x + %g: %r vs %r' % (big, r_big, rhat), rhat, r_big)
         perm = list(range(m))
         rng.shuffle(perm)
         e3 = float(eff_sample_size(ch[perm]))
